@@ -33,6 +33,25 @@ CLAIMED.update({
    design_ref="§4 C19"),
 })
 
+_E2 = "symbolic execution of the real leaf functions under CrossHair/z3 (all paths inside the stated string/integer bounds); counterexamples replayed natively"
+CLAIMED.update({
+ "C03": dict(engine="E2", technique=_E2,
+   text="Kernel-level, bounded: the bit-net naming the EDIF writer emits (name[i], id_i_) is split back into (i, name) by the reader's real separate_name_and_index for every name/identifier within the bound and i in 0..120; scalar names are never mistaken for bus bits; the real tokenizer is loss-free. The whole-file round trip is NOT claimed: the printing/recursive-descent glue is outside (DESIGN section 6).",
+   note="Trusted: CrossHair str/int/regex models, z3. Known finding F-C03-ampersand-underscore-bus is reported and excluded, the rest re-queried.", design_ref="§4 C03"),
+ "C05": dict(engine="E2", technique=_E2,
+   text="Kernel-level, bounded: the reader's naming and tokenizing kernels (shared with C03). Resolution of portRef/instanceRef/cellRef and bus re-assembly (E1) are planned obligations and not yet part of the claim.",
+   note="As C03.", design_ref="§4 C05"),
+ "C15": dict(engine="E1+E2", technique="bounded symbolic execution of the real parse() entry points with nondeterministic construct-parser stubs (z3) + CrossHair on the tokenizer",
+   text="For each reader's parse(): with the construct parser replaced by a stub that may return or raise anything, and a symbolic policy before the call, z3 shows namespace_manager.default is restored on every exit (this quantifies over every failure point of every input at once). Plus tokenizer termination/loss-freeness within the buffer bound.",
+   note="Stub side condition checked on the AST: no other function of the parser module assigns the policy. 'Never a half-built structure' for whole files is outside.", design_ref="§4 C15"),
+ "C17": dict(engine="E2", technique=_E2,
+   text="Bounded: on the real EdififyNames/_add_rename_property, for every single name within the bound the identifier is accepted by the reader's own legality rule; for sibling pairs (first from an adversarial table, second any string within the bound, both orders, with and without a pre-existing identifier) identifiers are legal, differ ignoring case, and the rename flag is set iff the identifier differs from the name; names around 250-262 characters stay legal except the recorded known finding.",
+   note="Trusted: CrossHair, z3. Outside: non-ASCII letters, more than two siblings, longer free names.", design_ref="§4 C17"),
+ "C18": dict(engine="E2", technique=_E2,
+   text="Kernel-level, bounded: EBLIF formal/actual naming (name, name[i]) as printed by the composer is read back to (name, i) by the real get_port_name_and_index for all names within the bound; malformed bracket text raises only ValueError. Instance/net construction (E1) not yet part of the claim.",
+   note="As C03.", design_ref="§4 C18"),
+})
+
 NA_REASON = "check not built yet in this round (see DESIGN.md §7 build order); no claim is made"
 
 def main():
